@@ -34,6 +34,10 @@ def local_names(t, ev):
     return t
 
 
+# helpers the rules know by name (compared as functions in their own right: C10, C11)
+NAMED_HELPERS = {"gcd", "lcm", "gamma", "lambert_w", "ilog"}
+
+
 class EvTables:
     def __init__(self, F, ev):
         self.F = F
@@ -115,13 +119,13 @@ class EvTables:
         t = tuple(self.inline_helpers(x, depth) for x in t)
         if len(t) >= 2 and t[0] == "call" and isinstance(t[1], str) and t[1].startswith("Ast.") and t[1] != "Ast.eval":
             f = self.fn("::ast::" + t[1][4:])
-            if f is not None and f.kind != "Closure" and not f.derived:
+            if f is not None and f.kind != "Closure" and not f.derived and t[1][4:] not in NAMED_HELPERS:
                 body = self.fn_term(f, inline_pure=True)
                 body = T.strip_tail_returns(body)
                 loops = any(isinstance(s_, tuple) and s_ and s_[0] in ("loop", "for") for s_ in subterms(body))
                 recursive = any(isinstance(s_, tuple) and len(s_) > 1 and s_[0] == "call" and s_[1] == t[1] for s_ in subterms(body))
                 params = [nm for (_, nm, _) in T.param_ids(f)]
-                if not loops and not recursive and T.term_size(body) <= 60 and len(params) == len(t) - 2 and all(params):
+                if not loops and not recursive and T.term_size(body) <= 120 and len(params) == len(t) - 2 and all(params):
                     inl = T.subst_params(body, dict(zip(params, t[2:])))
                     return self.inline_helpers(inl, depth + 1)
         return t
